@@ -640,3 +640,48 @@ Proof.
   - unfold forms_urlencoded, latin1_dec. apply into_plus, H2.
   - apply C18_params_lemma, H.
 Qed.
+
+(* ---- reads interleaved with replacements of the query string / body ---- *)
+
+Definition state_after (st : rstate) (ops : list op) : rstate := fold_left apply_op ops st.
+
+Lemma run_ops_app st pre post :
+  run_ops st (pre ++ post) = run_ops st pre ++ run_ops (state_after st pre) post.
+Proof.
+  revert st. induction pre as [|o pre IH]; intros st; [reflexivity|].
+  unfold state_after in *. destruct o; cbn [app run_ops fold_left apply_op]; rewrite IH; reflexivity.
+Qed.
+
+Definition expected_read (ps1 ps2 : list (str * str)) (a : accessor) : fdict :=
+  match a with
+  | AQuery => group ps1
+  | AForms => group ps2
+  | AParams => dict_update (group ps1) (group ps2)
+  end.
+
+Lemma C18_reads_follow_updates_lemma :
+  forall (st : rstate) (pre post : list op) (a : accessor),
+    (* a read returns the decoding of what the request carries at that moment, i.e. of the
+       state reached by the replacements before it — not of anything read or cached earlier *)
+    run_ops st (pre ++ ORead a :: post)
+    = run_ops st pre
+      ++ read_one (fst (state_after st pre)) (snd (state_after st pre)) a
+      :: run_ops (state_after st pre) post
+    (* and when that state is the encoding of pairs, the read is their grouping / merge *)
+    /\ (forall ps1 ps2,
+          (forall k v, In (k, v) (ps1 ++ ps2) -> k <> [] /\ Forall scalar k /\ Forall scalar v) ->
+          state_after st pre = (urlencode ps1, urlencode ps2) ->
+          nth_error (run_ops st (pre ++ ORead a :: post)) (length (run_ops st pre))
+          = Some (QDone (expected_read ps1 ps2 a))).
+Proof.
+  intros st pre post a.
+  assert (E : run_ops st (pre ++ ORead a :: post)
+              = run_ops st pre ++ read_one (fst (state_after st pre)) (snd (state_after st pre)) a
+                :: run_ops (state_after st pre) post).
+  { rewrite run_ops_app. reflexivity. }
+  split; [exact E|]. intros ps1 ps2 H Hst. rewrite E.
+  rewrite nth_error_app2, Nat.sub_diag by lia. cbn [nth_error]. f_equal.
+  rewrite Hst. cbn [fst snd].
+  pose proof (C18_access_roundtrip_lemma ps1 ps2 [a] H) as R. cbn [read_seq map] in R.
+  injection R as R. rewrite R. destruct a; reflexivity.
+Qed.
